@@ -17,7 +17,7 @@ from ..variants import Variant
 from .common import MatcherAtoms, calls_resolving_to, labelmap_api, make_metric_objs, matcher_loop, metric_registry
 
 INFO = {
-    "explanation": "Rounds 4/5: (R03.8) the matcher constructors store the given threshold for 0, 0.0, 1/4, 1.0 and both metric directions; candidate records are read by the layout the generator's own abstract run produces; a threshold test moved into the candidate generator is accepted only if the generator filters by score_beats_threshold(score, threshold) on every path for a numeric threshold of unknown truth value (candidate_prefilter); R04.2/R04.4 delegated (the assignment is delivered as relabelled maps). (R03.7) every matcher is run abstractly on a symbolic pair up to its call of the candidate function (wrappers inlined): prediction array, reference array, reference labels and the configured metric arrive each in their own parameter; C03 decided clause-wise from the source: (R03.1) the pair codec of _calc_overlapping_labels is interpreted pointwise over exact polynomials for the four sign classes of (prediction label, reference label) - filter accepts exactly overlapping pairs, decode returns (ref,pred); (R03.2) the candidate list is abstractly evaluated with symbolic candidates: element structure (score,(ref,pred)), starmap binding, sorted on the score with reverse == not decreasing on every path; (R03.3) score_beats_threshold bodies (both siblings) evaluated on the full table decreasing x ordering(score,threshold) incl. falsy thresholds; (R03.4) at every add_labelmap_entry call in a matcher the path condition implies 'meets threshold', 'prediction unassigned' and, without many-to-one, 'reference unassigned' on all rows of the truth table; (R03.5) no break/return/raise skips candidates, callee raise condition excluded. Candidate discovery is complete only if pair codes cannot wrap: container obligations of the encoding for every input dtype, also when the container is computed from the data (R09.1, delegated). Delegated also: the relabelling that delivers the assignment (R04.2 fresh labels above every reference label, R04.4 label table and outputs fit their dtype). Further delegated: R15.8 (the matching path writes into no received array), R15.7 (no memo between calls). Round 6: (R03.4g) the threshold matcher is run abstractly on every ordering of four candidates over two reference x two prediction labels, every outcome of the threshold tests and both many-to-one settings (exceptions raised and caught included) and the returned label map is compared with the greedy one; assignments whose rejection by the label map is caught and skipped are decided by this run, not by their path condition. Metric direction is read from the registry layout and score_beats_threshold, label map members are identified by what their bodies do (not by name). Round 7: the greedy run judges only monotone threshold outcomes (candidates arrive best first); early exits of the candidate loop (R03.5) and extra guards in maximality rows (R03.4d/e) are accepted exactly where the run finds the assignment greedy; the pointwise codec domain knows the bounding box of a mask, mask.any() and the single reference label. Round 8: (R03.1) the decoding identity is decided for every package function of the encoder signature (prediction array, reference array, reference labels) - what a contingency helper reports as labels must be the generic voxel's own two labels for label sets with gaps; (R03.9) helpers the metric enum mirrors from the metric value class (the matchers call the enum's copy) return the same value as the original on a grid of rational arguments for both directions; (R03.4g) the greedy run has a second scenario family with more predictions than references and decides alone when the candidate loop sits in a helper; (R03.8) constructors are tried with the metrics the matcher accepts.",
+    "explanation": "Rounds 4/5: (R03.8) the matcher constructors store the given threshold for 0, 0.0, 1/4, 1.0 and both metric directions; candidate records are read by the layout the generator's own abstract run produces; a threshold test moved into the candidate generator is accepted only if the generator filters by score_beats_threshold(score, threshold) on every path for a numeric threshold of unknown truth value (candidate_prefilter); R04.2/R04.4 delegated (the assignment is delivered as relabelled maps). (R03.7) every matcher is run abstractly on a symbolic pair up to its call of the candidate function (wrappers inlined): prediction array, reference array, reference labels and the configured metric arrive each in their own parameter; C03 decided clause-wise from the source: (R03.1) the pair codec of _calc_overlapping_labels is interpreted pointwise over exact polynomials for the four sign classes of (prediction label, reference label) - filter accepts exactly overlapping pairs, decode returns (ref,pred); (R03.2) the candidate list is abstractly evaluated with symbolic candidates: element structure (score,(ref,pred)), starmap binding, sorted on the score with reverse == not decreasing on every path; (R03.3) score_beats_threshold bodies (both siblings) evaluated on the full table decreasing x ordering(score,threshold) incl. falsy thresholds; (R03.4) at every add_labelmap_entry call in a matcher the path condition implies 'meets threshold', 'prediction unassigned' and, without many-to-one, 'reference unassigned' on all rows of the truth table; (R03.5) no break/return/raise skips candidates, callee raise condition excluded. Candidate discovery is complete only if pair codes cannot wrap: container obligations of the encoding for every input dtype, also when the container is computed from the data (R09.1, delegated). Delegated also: the relabelling that delivers the assignment (R04.2 fresh labels above every reference label, R04.4 label table and outputs fit their dtype). Further delegated: R15.8 (the matching path writes into no received array), R15.7 (no memo between calls). Round 6: (R03.4g) the threshold matcher is run abstractly on every ordering of four candidates over two reference x two prediction labels, every outcome of the threshold tests and both many-to-one settings (exceptions raised and caught included) and the returned label map is compared with the greedy one; assignments whose rejection by the label map is caught and skipped are decided by this run, not by their path condition. Metric direction is read from the registry layout and score_beats_threshold, label map members are identified by what their bodies do (not by name). Round 7: the greedy run judges only monotone threshold outcomes (candidates arrive best first); early exits of the candidate loop (R03.5) and extra guards in maximality rows (R03.4d/e) are accepted exactly where the run finds the assignment greedy; the pointwise codec domain knows the bounding box of a mask, mask.any() and the single reference label. Round 8: (R03.1) the decoding identity is decided for every package function of the encoder signature (prediction array, reference array, reference labels) - what a contingency helper reports as labels must be the generic voxel's own two labels for label sets with gaps; (R03.9) helpers the metric enum mirrors from the metric value class (the matchers call the enum's copy) return the same value as the original on a grid of rational arguments for both directions; (R03.4g) the greedy run has a second scenario family with more predictions than references and decides alone when the candidate loop sits in a helper; (R03.8) constructors are tried with the metrics the matcher accepts. Round 9: (R03.8 spellings) a matcher constructor that still takes an option through a positional catch-all stores the same settings for the positional and the keyword spelling; path-condition rows whose guard goes through a condition the rule cannot read (a new helper of the label map) are decided by the matcher's run (R03.4g); np.logical_and / or / not, ufuncs with dtype= and selections by a both-foreground mask are interpreted pointwise.",
     "trusted_base": ["Python semantics of the modelled AST subset (DESIGN appendix A.1)", "numpy primitives: astype, elementwise + * // %, masked store, np.unique (appendix A.2/A.4)", "multiprocessing.Pool.starmap preserves order and binds tuple elements positionally"],
     "assumptions": ["labels are non-negative integers, 0 = background; ref_labels is the non-empty tuple of reference labels (matchers run after the zero-instance check)", "all four combinations of (prediction already assigned, reference already assigned) are reachable in the greedy loop"],
     "not_decided": ["that the matching metric returns the documented score (C06/C07)", "tie-breaking among equal scores (property excludes ties)"],
